@@ -4,7 +4,7 @@ Run by hand when a finding is added or repaired - never at check time."""
 import json, subprocess, re, glob
 log=subprocess.check_output(['git','-C','/repo','log','--reverse','--format=%h %s']).decode().splitlines()
 fixmap={
-'D1':'fix: clear the pooled map key','D2':"fix: a map entry's value",'D3':'fix: BQTimestampCodec.Size','D5':'fix: reject slices of slices','D6':'fix: reject maps whose values','D7':'fix: nil entries in proto','D8':'fix: a proto map entry','D9':'fix: reject maps of maps','D10':'fix: Marshal by value','D11':'fix: Marshal returns the buffer','D12a':'fix: slice decoders','D12d':'fix: slice decoders','D12b':'fix: StructCodec.Read','D12c':'fix: StructCodec.Read','D12e':'fix: MapCodec.Read','D12f':'fix: TimeCodec','D12g':'fix: JSON map and array codecs','D12h':'fix: Skip never','D12i':'fix: Descriptor.Read validates','D13':'fix: do not publish','D14':'fix: a negative index','D15':'fix: skip every field','D16a':'fix: Descriptor.Read handles slices of bools','D16b':'fix: Descriptor.Read keeps zero-length','D16c':'fix: Descriptor.Read renders map','D16d':'fix: Descriptor.Read renders a JSON nil','D17':'fix: JSONArrayCodec.Read','D18':'fix: plenctag no longer','D19':'fix: plenctag gives','D23':'fix: nullFloatCodec.Size','D26':'fix: a tag option that selects no codec','D27':'fix: plenctag tags the exported names','D28':'fix: plenctag appends its tag','D31':'fix: plenctag panicked on a struct tag that holds only spaces','D32':'fix: plenctag wrote a tag holding a backquote','D33':'fix: Descriptor.Read handles slices of flat integers','D34':'fix: BQTimestampCodec.Read of an empty payload'}
+'D1':'fix: clear the pooled map key','D2':"fix: a map entry's value",'D3':'fix: BQTimestampCodec.Size','D5':'fix: reject slices of slices','D6':'fix: reject maps whose values','D7':'fix: nil entries in proto','D8':'fix: a proto map entry','D9':'fix: reject maps of maps','D10':'fix: Marshal by value','D11':'fix: Marshal returns the buffer','D12a':'fix: slice decoders','D12d':'fix: slice decoders','D12b':'fix: StructCodec.Read','D12c':'fix: StructCodec.Read','D12e':'fix: MapCodec.Read','D12f':'fix: TimeCodec','D12g':'fix: JSON map and array codecs','D12h':'fix: Skip never','D12i':'fix: Descriptor.Read validates','D13':'fix: do not publish','D14':'fix: a negative index','D15':'fix: skip every field','D16a':'fix: Descriptor.Read handles slices of bools','D16b':'fix: Descriptor.Read keeps zero-length','D16c':'fix: Descriptor.Read renders map','D16d':'fix: Descriptor.Read renders a JSON nil','D17':'fix: JSONArrayCodec.Read','D18':'fix: plenctag no longer','D19':'fix: plenctag gives','D23':'fix: nullFloatCodec.Size','D26':'fix: a tag option that selects no codec','D27':'fix: plenctag tags the exported names','D28':'fix: plenctag appends its tag','D31':'fix: plenctag panicked on a struct tag that holds only spaces','D32':'fix: plenctag wrote a tag holding a backquote','D33':'fix: Descriptor.Read handles slices of flat integers','D34':'fix: BQTimestampCodec.Read of an empty payload','D35':'fix: WTVarIntSliceWrapper.Read clears'}
 fixmap.update(json.load(open('/verif/tools/fixmap_extra.json')) if glob.glob('/verif/tools/fixmap_extra.json') else {})
 def commit(prefix):
     c=[l.split()[0] for l in log if l.split(' ',1)[1].startswith(prefix)]
